@@ -401,6 +401,10 @@ func (g *genState) opBound() CoreOp {
 	op := g.opAsk()
 	op.Node = g.pick(g.nodes)
 	op.ReqNode = ""
+	if g.r.Chance(30) {
+		// a recovered allocation that does not fit any more: the node is over-committed by the forced add
+		op.Res = g.r.res(g.ntypes, 15, 30, false)
+	}
 	return op
 }
 
@@ -446,7 +450,31 @@ func (g *genState) opRelease(pending *[]CoreEvent) CoreOp {
 
 func (g *genState) opMalformed() CoreOp {
 	var op CoreOp
-	switch g.r.Intn(14) {
+	switch g.r.Intn(17) {
+	case 14:
+		// a known pending key reported as bound on a node that is not registered
+		a := g.pick(g.apps)
+		op = CoreOp{Kind: "alloc", App: a, Key: g.pick(g.keys[a]), Node: "no-such-node", Res: CoreRes{"memory": 2}, AgeSec: 3600}
+		if op.Key == "" {
+			op.Key = "bad-15"
+		}
+	case 15:
+		// a known key with zero / negative resources
+		a := g.pick(g.apps)
+		op = CoreOp{Kind: "alloc", App: a, Key: g.pick(g.keys[a]), Res: CoreRes{"memory": 0}}
+		if g.r.Chance(50) {
+			op.Res = CoreRes{"memory": -1, "vcore": 2}
+		}
+		if op.Key == "" {
+			op.Key = "bad-16"
+		}
+	case 16:
+		// release for a known key of ANOTHER application
+		a, b := g.pick(g.apps), g.pick(g.apps)
+		op = CoreOp{Kind: "release", App: a, Key: g.pick(g.keys[b]), TType: int32(g.r.Intn(5))}
+		if a == b || op.Key == "" {
+			op = CoreOp{Kind: "release", App: "no-such-app", Key: "x", TType: 1}
+		}
 	case 0:
 		op = CoreOp{Kind: "alloc", App: "no-such-app", Key: "bad-1", Res: CoreRes{"memory": 1}}
 	case 1:
